@@ -832,7 +832,9 @@ func (d *DotGit) ObjectsWithPrefix(prefix []byte) ([]plumbing.Hash, error) {
 	// Handle edge cases.
 	if len(prefix) < 1 {
 		return d.Objects()
-	} else if len(prefix) > plumbing.ZeroHash.Size() {
+	} else if len(prefix) > d.options.ObjectFormat.Size() {
+		// Longer than an id of this repository (32 bytes for SHA-256, where
+		// a full id is a prefix too): nothing can match.
 		return nil, nil
 	}
 
